@@ -54,10 +54,13 @@ static const char *arm_reg[] =
 
 static int compute_immediate(int immediate)
 {
-  int rotate = immediate >> 8;
-  immediate &= 0xff;
+  int rotate = (immediate >> 8) << 1;
+  uint32_t value = immediate & 0xff;
 
-  return immediate << (rotate << 1);
+  // The 8 bit value is rotated right by twice the 4 bit rotate field.
+  if (rotate == 0) { return value; }
+
+  return (value >> rotate) | (value << (32 - rotate));
 #if 0
   int shift=(immediate>>8)*2;
   int shift_mask=(1<<(shift+1))-1;
